@@ -757,6 +757,7 @@ type joinShape struct {
 	stateKey *string
 	roomID   string
 	content  map[string]any
+	raw      json.RawMessage // content given as text (repeated or oddly-cased member names)
 	signer   *world.Server
 	key      *world.Key
 	ts       time.Time
@@ -766,6 +767,9 @@ type joinShape struct {
 func (c *c15) buildShape(s joinShape, authFrom []gmsl.PDU) (gmsl.PDU, error) {
 	rm := c.rm
 	p := world.Proto{RoomID: s.roomID, Sender: s.sender.id, Type: s.typ, StateKey: s.stateKey, Content: s.content, Prev: []string{rm.tip.id}, Depth: rm.tip.ev.Depth() + 1, AuthFrom: provOf(authFrom)}
+	if s.raw != nil {
+		p.Content = s.raw
+	}
 	return world.Build(rm.impl, p, s.ts, s.signer.Name, s.key)
 }
 
@@ -781,11 +785,11 @@ func (c *c15) opSendJoin() {
 	var verifier gmsl.JSONVerifier
 	verifier, useKeyRing = c.pickVerifier()
 	kinds := []string{"path_room_mismatch", "path_event_mismatch", "membership_not_join", "state_key_other_user", "state_key_empty", "not_a_state_event", "sender_of_other_server", "origin_mismatch",
-		"event_other_room", "sig_corrupt", "sig_strip", "sig_wrong_key", "sig_expired_key", "sig_future_ts", "querier_says_banned", "querier_membership_error", "authorised_via_remote_user", "authorised_via_invalid", "wrong_type", "verifier_error"}
+		"event_other_room", "sig_corrupt", "sig_strip", "sig_wrong_key", "sig_expired_key", "sig_future_ts", "querier_says_banned", "querier_membership_error", "authorised_via_remote_user", "authorised_via_invalid", "wrong_type", "verifier_error", "authorised_via_shadowed"}
 	nf := t.Weighted([]int{4, 4, 2, 1})
 	sigFaulted := false
 	for i := 0; i < nf; i++ {
-		k := kinds[t.Weighted([]int{3, 3, 3, 3, 1, 1, 3, 3, 2, 2, 2, 2, 2, 1, 3, 1, 3, 1, 2, 1})]
+		k := kinds[t.Weighted([]int{3, 3, 3, 3, 1, 1, 3, 3, 2, 2, 2, 2, 2, 1, 3, 1, 3, 1, 2, 1, 2})]
 		switch k {
 		case "path_room_mismatch":
 			pathRoom = "!elsewhere:" + string(rm.R().Name)
@@ -854,6 +858,22 @@ func (c *c15) opSendJoin() {
 			sh.content = map[string]any{"membership": "join", "join_authorised_via_users_server": sim.Pick(t, []string{rm.users[3].id, "@nobody:" + string(c.third().Name), rm.users[2].id})}
 			if s := rm.serverOf(sh.content["join_authorised_via_users_server"].(string)); s == rm.R() {
 				sh.content["join_authorised_via_users_server"] = rm.users[2].id
+			}
+		case "authorised_via_shadowed":
+			// the authorising user named twice, or under another letter case:
+			// readers of the content (encoding/json: last occurrence, names
+			// matched case-insensitively) see the remote user
+			local, remote := rm.users[0].id, sim.Pick(t, []string{rm.users[3].id, "@nobody:" + string(c.third().Name)})
+			if rm.serverOf(remote) == rm.R() {
+				remote = "@nobody:" + string(c.third().Name)
+			}
+			switch t.Intn(3) {
+			case 0:
+				sh.raw = json.RawMessage(fmt.Sprintf(`{"join_authorised_via_users_server":%q,"join_authorised_via_users_server":%q,"membership":"join"}`, local, remote))
+			case 1:
+				sh.raw = json.RawMessage(fmt.Sprintf(`{"Join_Authorised_Via_Users_Server":%q,"membership":"join"}`, remote))
+			case 2:
+				sh.raw = json.RawMessage(fmt.Sprintf(`{"join_authorised_via_users_server":%q,"membership":"join","JOIN_AUTHORISED_VIA_USERS_SERVER":%q}`, local, remote))
 			}
 		case "authorised_via_invalid":
 			sh.content = map[string]any{"membership": "join", "join_authorised_via_users_server": sim.Pick(t, []string{"not a user id", "@:", "r0"})}
